@@ -1,6 +1,7 @@
 package main
 
 import (
+	_ "embed"
 	"fmt"
 	goast "go/ast"
 	"go/constant"
@@ -8,12 +9,15 @@ import (
 	"go/token"
 	"go/types"
 	"math/big"
+	"reflect"
 	"sort"
 	"strings"
 	"sync"
 
 	"github.com/open2b/scriggo"
 	"github.com/open2b/scriggo/native"
+
+	"verifharness/props/c03/tp"
 )
 
 // ---- the real code: scriggo.Build ----
@@ -29,7 +33,24 @@ var nativePkgs = native.Packages{
 		"ToUpper": strings.ToUpper,
 		"Repeat":  strings.Repeat,
 	}},
+	// the assignability matrix: interfaces with methods and named types with methods (Scriggo
+	// source cannot declare methods); go/types type-checks the same file, tp/tp.go
+	"tp": native.Package{Name: "tp", Declarations: native.Declarations{
+		"Stringer": reflect.TypeOf((*tp.Stringer)(nil)).Elem(),
+		"Nobody":   reflect.TypeOf((*tp.Nobody)(nil)).Elem(),
+		"Both":     reflect.TypeOf((*tp.Both)(nil)).Elem(),
+		"Dur":      reflect.TypeOf(tp.Dur(0)),
+		"Buf":      reflect.TypeOf(tp.Buf{}),
+		"Err":      reflect.TypeOf(tp.Err{}),
+		"PErr":     reflect.TypeOf(tp.PErr{}),
+		"ES":       reflect.TypeOf(tp.ES{}),
+		"NewErr":   tp.NewErr,
+		"Pair":     tp.Pair,
+	}},
 }
+
+//go:embed tp/tp.go
+var tpSource string
 
 func buildReal(src string) (out buildOutcome) {
 	defer func() {
@@ -115,11 +136,27 @@ func (o typesOutcome) known() string {
 // stringsImporter gives go/types the same two-function package "strings" that Build gets from
 // nativePkgs (no GOROOT export data or sources needed).
 type stringsImporter struct {
-	once sync.Once
-	pkg  *types.Package
+	once   sync.Once
+	pkg    *types.Package
+	tpOnce sync.Once
+	tpPkg  *types.Package
+	tpErr  error
 }
 
 func (im *stringsImporter) Import(path string) (*types.Package, error) {
+	if path == "tp" {
+		// the native package of the assignability matrix: its own source, type-checked
+		im.tpOnce.Do(func() {
+			fset := token.NewFileSet()
+			f, err := parser.ParseFile(fset, "tp.go", tpSource, 0)
+			if err != nil {
+				im.tpErr = err
+				return
+			}
+			im.tpPkg, im.tpErr = (&types.Config{}).Check("tp", fset, []*goast.File{f}, nil)
+		})
+		return im.tpPkg, im.tpErr
+	}
 	if path != "strings" {
 		return nil, fmt.Errorf("package %s is not in std", path)
 	}
